@@ -55,7 +55,7 @@ def mc_runs(out, runs):
 
 
 def validate(out, family, module, cfg, trace, zv, replay_args=(), env=None, deque=False, timeout=1500,
-             max_confirm=25, workers=None, confirm=True):
+             max_confirm=25, workers=None, confirm=True, replay_env=None):
     """Validate recorded cases; confirm rejections by re-execution; fill out."""
     prop = out.prop
     cases = vlib.load_cases(trace)
@@ -92,7 +92,8 @@ def validate(out, family, module, cfg, trace, zv, replay_args=(), env=None, dequ
                 paths[i] = vlib.save_replay(prop, cases[i], {"family": family, "verdict": list(v[i])})
                 f.write(json.dumps(cases[i]) + "\n")
         fresh = os.path.join(vlib.scratch(), "fresh-%s.ndjson" % family)
-        vlib.run_zv1(zv, family, ["-replay", rp, "-seed", str(vlib.seed()), "-tier", vlib.tier()] + list(replay_args), out=fresh)
+        vlib.run_zv1(zv, family, ["-replay", rp, "-seed", str(vlib.seed()), "-tier", vlib.tier()] + list(replay_args), out=fresh, env=replay_env,
+                     timeout=1500 if replay_env else 600)
         v2, _ = vlib.validate_trace(module, cfg, fresh, env=env, deque=deque, timeout=timeout, workers=workers)
         for i in todo:
             if v2.get(i, ("missing",))[0] == "bad":
